@@ -21,6 +21,9 @@ import math
 
 from harness.armi_env import armi_ready
 
+# C14 switches this on (props/c14.py): the other users of this generator (C13 geometry conversion, C04) assume stacks
+# whose blocks end at common elevations
+UNEVEN_PLATES = False
 TYPE_NAMES = {"G": "grid plate", "F": "fuel", "P": "plenum", "S": "axial shield"}
 HEIGHTS = {"G": 15.0, "F": 25.0, "P": 40.0, "S": 20.0}  # same letter => same height (stationary blocks keep mesh)
 
@@ -129,7 +132,7 @@ def make_block(letter, aid, k, geom="hex"):
     b.p.axMesh = 1  # as blueprints do (axial mesh points per block, read by Core.processLoading)
     # grid plates are not all of one height (every second assembly's plate is 1 cm shorter): exchanging stationary
     # blocks that end at different elevations is legal (armi logs a warning), and must not disturb anything else
-    b.setHeight(HEIGHTS[letter] - (1.0 if letter == "G" and aid % 2 == 0 else 0.0))
+    b.setHeight(HEIGHTS[letter] - (1.0 if UNEVEN_PLATES and letter == "G" and aid % 2 == 0 else 0.0))
     if letter == "F":
         # a per-block U235 content so number densities differ between otherwise identical fuel blocks
         fuel = comps[0]
